@@ -295,14 +295,21 @@ func c42Oracle(t *testing.T, cs c42Case) (string, string, c42Obs) {
 	return "", "", obs
 }
 
-func c42Kind(d string) string {
-	// "*v1.ServiceList/ns/name: ..." -> kind + name suffix after the cluster name
+func c42Kind(d string) string { return c42KindFor("", d) }
+
+// c42KindFor: "*v1.ServiceList/ns/<cluster>-broker: ..." -> "Service-broker"
+func c42KindFor(cluster, d string) string {
 	head := strings.SplitN(d, ":", 2)[0]
 	parts := strings.Split(head, "/")
-	kind := strings.TrimSuffix(strings.TrimPrefix(parts[0], "*v1."), "List")
-	kind = strings.TrimSuffix(strings.TrimPrefix(kind, "*v2."), "List")
+	kind := parts[0]
+	if i := strings.LastIndex(kind, "."); i >= 0 {
+		kind = kind[i+1:]
+	}
+	kind = strings.TrimSuffix(kind, "List")
 	name := parts[len(parts)-1]
-	if i := strings.Index(name, "-"); i >= 0 {
+	if cluster != "" && strings.HasPrefix(name, cluster) {
+		name = name[len(cluster):]
+	} else if i := strings.LastIndex(name, "-"); i >= 0 && cluster == "" {
 		name = name[i:]
 	}
 	return kind + name
@@ -463,7 +470,7 @@ func TestVerifC42(t *testing.T) {
 		// whether pass 2 changed anything
 		names := make([]string, len(obs.Objects))
 		for i, o := range obs.Objects {
-			names[i] = cqStr(c42Kind(o + ":"))
+			names[i] = cqStr(c42KindFor(cs.Name, o+":"))
 		}
 		changed := obs.Err == "" && len(obs.Passes) > 1 && c42Diff(obs.Passes[0], obs.Passes[1]) != ""
 		coq = append(coq, fmt.Sprintf("mkCase %s %s %s", cqList(names), cqBool(obs.Err == ""), cqBool(changed)))
